@@ -4,7 +4,7 @@
 # elsewhere are not disturbed), runs the quick checks against it, removes the worktree.
 P="$1"; shift
 WT=/tmp/evalseed_wt.$$
-git -C /repo worktree add -q --detach "$WT" HEAD || { echo "cannot create worktree"; exit 2; }
+git -C /repo worktree add -q --detach "$WT" "${EVAL_BASE:-HEAD}" || { echo "cannot create worktree"; exit 2; }
 trap 'git -C /repo worktree remove --force "$WT" >/dev/null 2>&1; rm -f /tmp/evalseed.$$.log' EXIT INT TERM
 git -C "$WT" apply "$P" || { echo "patch does not apply"; exit 2; }
 for PROP in "$@"; do
